@@ -69,7 +69,7 @@ func MutateReport(t *rapid.T, cfg *telemetry.UploadConfig, r *telemetry.Report) 
 	kinds := []string{"week", "config", "x"}
 	if len(r.Programs) > 0 {
 		kinds = append(kinds, "program", "version", "goversion", "goos", "goarch", "counter", "literal", "stackprefix", "counter-like-stack", "stack-like-counter",
-			"program", "version", "goversion", "goos", "goarch", "counter", "stackprefix")
+			"program", "version", "goversion", "goos", "goarch", "counter", "stackprefix", "platform-empty", "platform-empty")
 	}
 	if len(r.Programs) > 1 {
 		kinds = append(kinds, "item-of-other-program", "item-of-other-program")
@@ -122,6 +122,26 @@ func MutateReport(t *rapid.T, cfg *telemetry.UploadConfig, r *telemetry.Report) 
 		p.GOOS = notIn(GOOSPool, cfg.GOOS, "badGOOS")
 	case "goarch":
 		p.GOARCH = notIn(GOARCHPool, cfg.GOARCH, "badGOARCH")
+	case "platform-empty":
+		// one, two or all three of the platform fields are empty (omitted by the sender)
+		which := rapid.SampledFrom([]int{7, 7, 7, 1, 2, 4, 3, 5, 6}).Draw(t, "emptyFields")
+		if which&1 != 0 {
+			p.GOOS = ""
+		}
+		if which&2 != 0 {
+			p.GOARCH = ""
+		}
+		if which&4 != 0 {
+			p.GoVersion = ""
+		}
+		// (the entry may be put first: a validator that remembers the platform it approved last starts from "none")
+		if rapid.Bool().Draw(t, "emptyPlatformFirst") {
+			for i, q := range r.Programs {
+				if q == p {
+					r.Programs[0], r.Programs[i] = r.Programs[i], r.Programs[0]
+				}
+			}
+		}
 	case "counter":
 		var listed []string
 		for _, c := range pc.Counters {
